@@ -77,10 +77,16 @@ impl Arg {
                     "flt.max_".into()
                 } else if f == f64::MIN_POSITIVE {
                     "flt.min_positive".into()
-                } else if f.is_sign_negative() {
-                    format!("({:?})", f)
                 } else {
-                    format!("{:?}", f)
+                    let mut t = format!("{:?}", f.abs());
+                    if t.contains('e') {
+                        t = if f.abs() >= 1.0 { format!("{:.1}", f.abs()) } else { format!("{:.12}", f.abs()) };
+                    }
+                    if f.is_sign_negative() {
+                        format!("(-{})", t)
+                    } else {
+                        t
+                    }
                 }
             }
             Arg::S(s) => {
@@ -103,7 +109,10 @@ impl Arg {
                 '\\' => "'\\\\'".into(),
                 '\n' => "'\\n'".into(),
                 '\t' => "'\\t'".into(),
-                c => format!("'{}'", c),
+                c if c.is_ascii() => format!("'{}'", c),
+                // a non-ASCII char literal panics in the tokenizer (finding `panic:parser/src/str_suffix.rs`),
+                // so such characters are obtained from a string literal instead
+                c => format!("(strp.char_at \"{}\" 0)", c),
             },
             Arg::U => "()".into(),
             Arg::AI(v) => format!(
@@ -114,7 +123,7 @@ impl Arg {
                 "[{}]",
                 v.iter().map(|n| format!("{}b", n)).collect::<Vec<_>>().join(", ")
             ),
-            Arg::X(e, _) => format!("({})", e),
+            Arg::X(e, _) => e.to_string(),
         }
     }
     pub fn sexp(&self) -> String {
@@ -166,7 +175,7 @@ fn floats() -> Vec<u64> {
 
 /// Index-like Int values for a primitive that also takes a string / array: positions inside, at
 /// and past the end, inside a code point, negative.
-const I_INDEX: &[i64] = &[0, 1, 2, 3, 4, 5, 6, 7, 8, -1, i64::MIN, i64::MAX, 99];
+const I_INDEX: &[i64] = &[0, 1, 2, 3, -1, i64::MAX, 4, 5, 6, 7, 8, i64::MIN, 99];
 
 fn values(kind: &Kind, indexy: bool, core_only: bool) -> Vec<Arg> {
     match kind {
@@ -209,23 +218,15 @@ fn values(kind: &Kind, indexy: bool, core_only: bool) -> Vec<Arg> {
     }
 }
 
-/// Provider expressions for arguments that only other primitives can construct.
+/// Provider variables (bound by set-up lines of `program`) for arguments that only other
+/// primitives can construct.
 fn specials(t: &str) -> Vec<Arg> {
-    if t.starts_with("std.effect.st.string.StringBuf") || t.starts_with("StringBuf") {
-        vec![
-            Arg::X("let b = sbuf.new () in let _ = sbuf.push_str b \"a\u{e9}b\" in b", "sb:a\u{e9}b"),
-            Arg::X("sbuf.new ()", "sb:"),
-        ]
+    if t.contains("StringBuf") {
+        vec![Arg::X("sb1", "sb:a\u{e9}b"), Arg::X("sb0", "sb:")]
     } else if t.contains("Regex") {
-        vec![Arg::X(
-            "match rgx.new \"(a+)(b)?\" with | Ok r -> r | Err _ -> (import! std.prim).error \"regex\"",
-            "regex",
-        )]
+        vec![Arg::X("rx1", "regex")]
     } else if t.contains("XorShiftRng") {
-        vec![Arg::X(
-            "rnd.xor_shift_new [1b, 2b, 3b, 4b, 5b, 6b, 7b, 8b, 9b, 10b, 11b, 12b, 13b, 14b, 15b, 16b]",
-            "rng",
-        )]
+        vec![Arg::X("rng1", "rng")]
     } else {
         vec![]
     }
@@ -284,31 +285,41 @@ pub fn class_modelled(name: &str) -> bool {
     ) || matches!(name, "std.random.prim.gen_int_range" | "std.random.prim.xor_shift_new")
 }
 
-pub struct Case {
-    pub entry: usize,
-    pub args: Vec<Arg>,
-    pub program: String,
-}
-
-pub fn program(e: &Entry, args: &[Arg]) -> String {
+pub fn program(e: &Entry, args: &[Arg], wrap: bool) -> String {
     let mut p = String::new();
     p.push_str(&format!("let m = import! {}\n", e.module));
-    p.push_str("let flt = import! std.float.prim\n");
-    if args.iter().any(|a| matches!(a, Arg::X(_, t) if t.starts_with("sb:"))) || e.module == "std.effect.st.string.prim" {
+    let txt: String = args.iter().map(|a| a.text()).collect::<Vec<_>>().join(" ");
+    if txt.contains("flt.") {
+        p.push_str("let flt = import! std.float.prim\n");
+    }
+    if txt.contains("strp.") {
+        p.push_str("let strp = import! std.string.prim\n");
+    }
+    let has = |t: &str| args.iter().any(|a| matches!(a, Arg::X(v, _) if *v == t));
+    if has("sb1") || has("sb0") {
         p.push_str("let sbuf = import! std.effect.st.string.prim\n");
+        p.push_str("let sb0 = sbuf.new ()\n");
+        p.push_str("let sb1 = sbuf.new ()\nlet _ = sbuf.push_str sb1 \"a\u{e9}b\"\n");
     }
-    if args.iter().any(|a| matches!(a, Arg::X(_, "regex"))) {
-        p.push_str("let rgx = import! std.regex.prim\n");
+    if has("rx1") {
+        p.push_str("let { Result } = import! std.types\nlet rgx = import! std.regex.prim\n");
+        p.push_str("let rx1 =\n    match rgx.new \"(a+)(b)?\" with\n    | Ok r -> r\n    | Err _ -> (import! std.prim).error \"regex\"\n");
     }
-    if args.iter().any(|a| matches!(a, Arg::X(_, "rng"))) {
+    if has("rng1") {
         p.push_str("let rnd = import! std.random.prim\n");
+        p.push_str("let rng1 = rnd.xor_shift_new [1b, 2b, 3b, 4b, 5b, 6b, 7b, 8b, 9b, 10b, 11b, 12b, 13b, 14b, 15b, 16b]\n");
     }
-    p.push_str(&format!("m.{}", e.field));
+    let mut call = format!("m.{}", e.field);
     for a in args {
-        p.push(' ');
-        p.push_str(&a.text());
+        call.push(' ');
+        call.push_str(&a.text());
     }
-    p.push('\n');
+    if wrap {
+        p.push_str(&format!("let r = {}\n{{ r }}\n", call));
+    } else {
+        p.push_str(&call);
+        p.push('\n');
+    }
     p
 }
 
@@ -369,88 +380,182 @@ fn first_line(s: &str) -> String {
     t
 }
 
-pub fn eval_line(vm: &Thread, src: &str) -> String {
-    match vm.run_expr::<OpaqueValue<&Thread, Hole>>("c06", src) {
-        Ok((v, _)) => format!("ok\t{}", render(v.get_variant(), 0)),
+macro_rules! tlog {
+    ($($a:tt)*) => {
+        if let Ok(p) = std::env::var("C06_TIMING") {
+            use std::io::Write;
+            if let Ok(mut f) = std::fs::OpenOptions::new().create(true).append(true).open(p) {
+                let _ = writeln!(f, $($a)*);
+            }
+        }
+    };
+}
+
+static LAST_PANIC: std::sync::Mutex<String> = std::sync::Mutex::new(String::new());
+
+pub fn install_panic_hook() {
+    std::panic::set_hook(Box::new(|info| {
+        let loc = info
+            .location()
+            .map(|l| format!("{}:{}", l.file().trim_start_matches("/repo/"), l.line()))
+            .unwrap_or_default();
+        if let Ok(mut g) = LAST_PANIC.lock() {
+            *g = loc;
+        }
+    }));
+}
+
+/// Evaluate one program; `unwrap` = the program wrapped its result as `{ r = … }`.
+pub fn eval_line(vm: &Thread, src: &str, unwrap: bool) -> String {
+    let r = gv::catch(|| match vm.run_expr::<OpaqueValue<&Thread, Hole>>("c06", src) {
+        Ok((v, _)) => {
+            let v = v.get_variant();
+            let shown = if unwrap {
+                match v.as_ref() {
+                    ValueRef::Data(d) => d.get_variant(0).map(|x| render(x, 0)).unwrap_or("?".into()),
+                    _ => render(v, 0),
+                }
+            } else {
+                render(v, 0)
+            };
+            format!("ok\t{}", shown)
+        }
         Err(e) => format!("{}\t{}", error_class(&e), first_line(&e.to_string())),
+    });
+    match r {
+        Ok(l) => l,
+        Err(msg) => {
+            let loc = LAST_PANIC.lock().map(|g| g.clone()).unwrap_or_default();
+            format!("panic\t{} {}", loc, first_line(&msg))
+        }
     }
 }
 
-pub fn warm_vm() -> gluon::RootedThread {
+pub fn warm_vm(prelude: bool) -> gluon::RootedThread {
     let vm = gv::vm::new_vm();
     {
         let mut db = vm.get_database_mut();
-        db.set_implicit_prelude(true);
+        db.set_implicit_prelude(prelude);
         db.run_io(true);
     }
     vm
 }
 
-/// `--child prims`: stdin = one case per line `idx \t program` (newlines as \x01); every case runs in a fork.
+pub fn needs_prelude(module: &str) -> bool {
+    matches!(module, "std.path.prim" | "std.fs.prim" | "std.regex.prim" | "std.io.prim")
+}
+
+/// `--child prims`: stdin = one case per line `idx \t flags \t program` (newlines as \x01).
+/// flags: P/N implicit prelude, W/R result wrapped in a record.  Cases run in forked workers; a
+/// worker that dies is replaced and the case it was at is reported with the way it died.
 pub fn child_main() {
-    gv::quiet_panics();
+    install_panic_hook();
     let mut input = String::new();
     std::io::stdin().read_to_string(&mut input).unwrap();
-    let vm = warm_vm();
-    // load every module once so the forked children only compile the call
-    let mods: std::collections::BTreeSet<String> = table().into_iter().map(|e| e.module).collect();
-    for m in mods {
-        let _ = vm.run_expr::<OpaqueValue<&Thread, Hole>>("warm", &format!("let _ = import! {}\n()", m));
-    }
-    for line in input.lines() {
-        let (idx, prog) = match line.split_once('\t') {
-            Some(x) => x,
-            None => continue,
-        };
-        let prog = prog.replace('\x01', "\n");
-        let st = sys::in_fork(10, || format!("{}\t{}\n", idx, eval_line(&vm, &prog)));
-        match st {
-            sys::Forked::Done => {}
-            sys::Forked::Exit(c) => println!("{}\texit:{}\t", idx, c),
-            sys::Forked::Signal(14) => println!("{}\ttimeout\t", idx),
-            sys::Forked::Signal(s) => println!("{}\tsignal:{}\t", idx, s),
+    let mut chan = sys::private_stdout();
+    let lines: Vec<(String, String, String)> = input
+        .lines()
+        .filter_map(|l| {
+            let mut it = l.splitn(3, '\t');
+            Some((it.next()?.to_string(), it.next()?.to_string(), it.next()?.replace('\x01', "\n")))
+        })
+        .collect();
+    for prelude in [false, true] {
+        let idxs: Vec<usize> = (0..lines.len()).filter(|i| lines[*i].1.contains('P') == prelude).collect();
+        if idxs.is_empty() {
+            continue;
+        }
+        let t0 = std::time::Instant::now();
+        let vm = warm_vm(prelude);
+        // load the modules once so the workers only compile the call
+        let mods: std::collections::BTreeSet<String> = table().into_iter().map(|e| e.module).collect();
+        for m in mods {
+            if prelude || !needs_prelude(&m) {
+                let _ = vm.run_expr::<OpaqueValue<&Thread, Hole>>("warm", &format!("let _ = import! {}\n()", m));
+            }
+        }
+        tlog!("[c06 child] prelude={} warm {:?} cases {}", prelude, t0.elapsed(), idxs.len());
+        let mut k = 0usize;
+        let mut forks = 0;
+        while k < idxs.len() {
+            forks += 1;
+            if k + 1 >= idxs.len() {
+                tlog!("[c06 child] prelude={} forks {} elapsed {:?}", prelude, forks, t0.elapsed());
+            }
+            let end = if lines[idxs[k]].1.contains('I') {
+                k + 1
+            } else {
+                let mut e = k;
+                while e < idxs.len() && e < k + 400 && !lines[idxs[e]].1.contains('I') {
+                    e += 1;
+                }
+                e
+            };
+            let (st, last) = sys::worker(|progress| {
+                for j in k..end {
+                    progress(j as u32);
+                    sys::set_alarm(10);
+                    let (idx, flags, prog) = &lines[idxs[j]];
+                    let l = eval_line(&vm, prog, flags.contains('W'));
+                    use std::io::Write;
+                    let _ = chan.write_all(format!("{}\t{}\n", idx, l).as_bytes());
+                }
+                sys::set_alarm(0);
+                progress(u32::MAX);
+            });
+            match (st, last) {
+                (sys::Forked::Done, Some(u32::MAX)) => k = end,
+                (st, Some(j)) if (j as usize) < end && j != u32::MAX => {
+                    let idx = &lines[idxs[j as usize]].0;
+                    use std::io::Write;
+                    let l = match st {
+                        sys::Forked::Signal(14) => format!("{}\ttimeout\t\n", idx),
+                        sys::Forked::Signal(s) => format!("{}\tsignal:{}\t\n", idx, s),
+                        sys::Forked::Exit(c) => format!("{}\texit:{}\t\n", idx, c),
+                        sys::Forked::Done => format!("{}\texit:0\t\n", idx),
+                    };
+                    let _ = chan.write_all(l.as_bytes());
+                    k = j as usize + 1;
+                }
+                _ => {
+                    // worker died before its first case: give up on this batch
+                    for j in k..end {
+                        use std::io::Write;
+                        let _ = chan.write_all(format!("{}\tserver-died\t\n", lines[idxs[j]].0).as_bytes());
+                    }
+                    k = end;
+                }
+            }
         }
     }
 }
 
-/// Run programs isolated; returns per program (class, detail).
-pub fn run_isolated(programs: &[String]) -> Vec<(String, String)> {
+/// Run programs isolated; `flags[i]` as in `child_main`. Returns per program (class, detail).
+pub fn run_isolated(programs: &[(String, String)]) -> Vec<(String, String)> {
     let mut res: Vec<Option<(String, String)>> = vec![None; programs.len()];
-    let mut start = 0;
-    let mut rounds = 0;
-    while start < programs.len() && rounds < 50 {
-        rounds += 1;
-        let mut input = String::new();
-        for (i, p) in programs.iter().enumerate().skip(start) {
-            input.push_str(&format!("{}\t{}\n", i, p.replace('\n', "\x01")));
+    let mut input = String::new();
+    for (i, (flags, p)) in programs.iter().enumerate() {
+        input.push_str(&format!("{}\t{}\t{}\n", i, flags, p.replace('\n', "\x01")));
+    }
+    let ex = gv::child::run(&["--child", "prims"], input.as_bytes(), Duration::from_secs(3600));
+    let outp = match &ex {
+        gv::child::Exit::Ok(o) => o.clone(),
+        #[allow(unreachable_patterns)]
+        gv::child::Exit::Code(_, o, e) | gv::child::Exit::Signal(_, o, e) => {
+            eprintln!("fork server died: {} {}", ex.class(), e);
+            o.clone()
         }
-        let ex = gv::child::run(&["--child", "prims"], input.as_bytes(), Duration::from_secs(3600));
-        let outp = match &ex {
-            gv::child::Exit::Ok(o) => o.clone(),
-            gv::child::Exit::Code(_, o, _) | gv::child::Exit::Signal(_, o, _) => o.clone(),
-            gv::child::Exit::Timeout(o) => o.clone(),
-        };
-        let mut last = start;
-        for l in outp.lines() {
-            let mut it = l.splitn(3, '\t');
-            if let (Some(i), Some(c)) = (it.next(), it.next()) {
-                if let Ok(i) = i.parse::<usize>() {
-                    if i < res.len() {
-                        res[i] = Some((c.to_string(), it.next().unwrap_or("").to_string()));
-                        last = i + 1;
-                    }
+        gv::child::Exit::Timeout(o) => o.clone(),
+    };
+    for l in outp.lines() {
+        let mut it = l.splitn(3, '\t');
+        if let (Some(i), Some(c)) = (it.next(), it.next()) {
+            if let Ok(i) = i.parse::<usize>() {
+                if i < res.len() {
+                    res[i] = Some((c.to_string(), it.next().unwrap_or("").to_string()));
                 }
             }
         }
-        if let gv::child::Exit::Ok(_) = ex {
-            break;
-        }
-        // the fork server itself died: should not happen; mark the case it was at and go on
-        if last < res.len() && res[last].is_none() {
-            res[last] = Some(("server-died".into(), ex.class()));
-            last += 1;
-        }
-        start = last;
     }
     res.into_iter()
         .map(|r| r.unwrap_or(("not-run".into(), String::new())))
@@ -461,11 +566,51 @@ fn is_abort(class: &str) -> bool {
     class.starts_with("signal:") || class.starts_with("exit:") || class == "timeout" || class == "server-died"
 }
 
+pub struct Case {
+    pub entry: usize,
+    pub args: Vec<Arg>,
+    pub program: String,
+    pub flags: String,
+}
+
+/// Whole programs whose *evaluation by the host* (not a primitive) must end in a value or an error.
+pub const PROGRAMS: &[(&str, &str)] = &[
+    ("nan-result", "0.0 #Float/ 0.0\n"),
+    ("nan-in-record", "{ x = 0.0 #Float/ 0.0 }\n"),
+    ("char-literal-2-bytes", "'\u{e9}'\n"),
+    ("char-literal-3-bytes", "'\u{65e5}'\n"),
+    ("string-literal-non-ascii", "\"\u{e9}\u{65e5}\"\n"),
+    ("int-div-zero", "1 #Int/ 0\n"),
+    ("int-div-overflow", "(-0x8000000000000000) #Int/ (-1)\n"),
+    ("int-add-overflow", "9223372036854775807 #Int+ 1\n"),
+    ("int-mul-overflow", "9223372036854775807 #Int* 2\n"),
+    ("int-sub-overflow", "(-0x8000000000000000) #Int- 1\n"),
+    ("byte-add-overflow", "255b #Byte+ 1b\n"),
+    ("byte-sub-overflow", "0b #Byte- 1b\n"),
+    ("byte-div-zero", "1b #Byte/ 0b\n"),
+    ("float-div-zero", "{ x = 1.0 #Float/ 0.0 }\n"),
+    ("error-call", "(import! std.prim).error \"boom\"\n"),
+    ("parse-error", "let x = in\n"),
+    ("type-error", "1 #Int+ \"a\"\n"),
+    ("unterminated-char", "'a\n"),
+    ("unterminated-string", "\"abc\n"),
+    ("empty-char", "''\n"),
+    ("bad-escape", "\"\\q\"\n"),
+    ("lone-non-ascii", "\u{e9}\n"),
+    ("non-ascii-after-number", "1\u{e9}\n"),
+    ("non-ascii-after-float", "1.5\u{e9}\n"),
+    ("hex-non-ascii", "0x\u{e9}\n"),
+    ("byte-literal-overflow", "256b\n"),
+    ("int-literal-overflow", "9223372036854775808\n"),
+    ("array-index-oob", "(import! std.array.prim).index [1, 2] 5\n"),
+    ("undefined-variable", "xyz\n"),
+    ("undefined-import", "import! std.does_not_exist\n"),
+];
+
 pub fn run(args: &Args, out: &mut Out) {
     let tab = table();
-    let vm = warm_vm();
+    let vm = warm_vm(true);
     let mut rng = gv::rng::Rng::new(args.seed, 6);
-    let per_prim = if args.thorough() { 400 } else { 40 };
     let mut cases: Vec<Case> = vec![];
     let mut sigs: BTreeMap<String, String> = BTreeMap::new();
     for (ei, e) in tab.iter().enumerate() {
@@ -474,6 +619,13 @@ pub fn run(args: &Args, out: &mut Out) {
             out.count("skipped:bytecode-entry");
             continue;
         }
+        let prelude = needs_prelude(&e.module);
+        let per_prim = match (args.thorough(), prelude) {
+            (true, false) => 400,
+            (true, true) => 60,
+            (false, false) => 30,
+            (false, true) => 8,
+        };
         let src = format!("let m = import! {}\nm.{}", e.module, e.field);
         let typ = match vm.typecheck_str("sig", &src, None) {
             Ok((_, t)) => t,
@@ -484,10 +636,15 @@ pub fn run(args: &Args, out: &mut Out) {
         };
         let typ = remove_forall(&typ).clone();
         let arg_types: Vec<ArcType> = arg_iter(&typ).cloned().collect();
+        let ret = {
+            let mut it = arg_iter(&typ);
+            while it.next().is_some() {}
+            it.typ.to_string()
+        };
+        let is_io = ret.starts_with("IO ") || ret.starts_with("std.io.IO ") || ret.contains("IO ");
         sigs.insert(e.name.clone(), typ.to_string());
         let kinds: Vec<Kind> = arg_types.iter().map(kind_of).collect();
         let has_container = kinds.iter().any(|k| matches!(k, Kind::Str | Kind::ArrInt | Kind::ArrByte | Kind::Special(_)));
-        // IO primitives take their declared arity minus the hidden world argument
         let lists: Vec<Vec<Arg>> = kinds
             .iter()
             .map(|k| values(k, has_container && *k == Kind::Int, kinds.len() >= 3))
@@ -499,45 +656,38 @@ pub fn run(args: &Args, out: &mut Out) {
         }
         let total: usize = lists.iter().map(|l| l.len()).product();
         let mut tuples: Vec<Vec<Arg>> = vec![];
+        let grid = |limit: &dyn Fn(usize) -> usize, tuples: &mut Vec<Vec<Arg>>| {
+            let mut idx = vec![0usize; lists.len()];
+            loop {
+                tuples.push(idx.iter().enumerate().map(|(k, i)| lists[k][*i].clone()).collect());
+                let mut k = 0;
+                while k < idx.len() {
+                    idx[k] += 1;
+                    if idx[k] < limit(k) {
+                        break;
+                    }
+                    idx[k] = 0;
+                    k += 1;
+                }
+                if k == idx.len() {
+                    break;
+                }
+            }
+        };
         if total <= per_prim {
-            let mut idx = vec![0usize; lists.len()];
-            loop {
-                tuples.push(idx.iter().enumerate().map(|(k, i)| lists[k][*i].clone()).collect());
-                let mut k = 0;
-                while k < idx.len() {
-                    idx[k] += 1;
-                    if idx[k] < lists[k].len() {
-                        break;
-                    }
-                    idx[k] = 0;
-                    k += 1;
-                }
-                if k == idx.len() {
-                    break;
-                }
-            }
+            grid(&|k| lists[k].len(), &mut tuples);
         } else {
-            // the core grid first (first ≤7 values of every list), then seeded samples of the rest
-            let core: Vec<usize> = lists.iter().map(|l| l.len().min(if lists.len() >= 3 { 4 } else { 7 })).collect();
-            let mut idx = vec![0usize; lists.len()];
-            loop {
-                tuples.push(idx.iter().enumerate().map(|(k, i)| lists[k][*i].clone()).collect());
-                let mut k = 0;
-                while k < idx.len() {
-                    idx[k] += 1;
-                    if idx[k] < core[k] {
-                        break;
-                    }
-                    idx[k] = 0;
-                    k += 1;
-                }
-                if k == idx.len() {
-                    break;
-                }
-            }
+            // the core grid first (leading values of every list), then seeded samples of the rest
+            let w = match lists.len() {
+                1 => per_prim,
+                2 => 6,
+                _ => 3,
+            };
+            grid(&|k| lists[k].len().min(w), &mut tuples);
+            tuples.truncate(per_prim.max(36));
+            let target = per_prim.max(tuples.len() + 8);
             let mut guard = 0;
-            let target = per_prim.max(tuples.len() + 12);
-            while tuples.len() < target && guard < 10 * per_prim {
+            while tuples.len() < target && guard < 10 * target {
                 guard += 1;
                 let t: Vec<Arg> = lists.iter().map(|l| rng.pick(l).clone()).collect();
                 if !tuples.contains(&t) {
@@ -546,21 +696,44 @@ pub fn run(args: &Args, out: &mut Out) {
             }
         }
         for t in tuples {
-            let program = program(e, &t);
-            cases.push(Case { entry: ei, args: t, program });
+            let program = program(e, &t, !is_io);
+            let flags = format!("{}{}", if prelude { "P" } else { "N" }, if is_io { "R" } else { "W" });
+            cases.push(Case { entry: ei, args: t, program, flags });
         }
     }
     out.stats.insert("signatures".into(), serde_json::to_value(&sigs).unwrap());
     drop(vm);
-    let programs: Vec<String> = cases.iter().map(|c| c.program.clone()).collect();
+    let mut programs: Vec<(String, String)> = cases.iter().map(|c| (c.flags.clone(), c.program.clone())).collect();
+    let n_prim = programs.len();
+    for (_, p) in PROGRAMS {
+        programs.push(("NRI".into(), p.to_string()));
+    }
     let results = run_isolated(&programs);
-    let mut compile_errors = 0;
+    let mut bad = 0;
     let mut aborting: BTreeMap<String, (String, String)> = BTreeMap::new();
     for (c, (class, detail)) in cases.iter().zip(results.iter()) {
         let e = &tab[c.entry];
         let argtxt = c.args.iter().map(|a| a.sexp()).collect::<Vec<_>>().join(" ");
-        if class == "compile-error" || class == "not-run" {
-            compile_errors += 1;
+        let class = &(if class == "compile-error" && (e.field == "run_expr" || e.field == "load_script") {
+            "err".to_string()
+        } else {
+            class.clone()
+        });
+        if class == "panic" {
+            out.count("outcome:panic");
+            out.class(format!("{}:panic", e.name));
+            if !aborting.contains_key(&e.name) {
+                aborting.insert(e.name.clone(), (c.program.clone(), class.clone()));
+                out.oracle_fail(
+                    &format!("panic:{}", e.name),
+                    &format!("calling {} from a script panics inside gluon ({}); first input: {}", e.name, detail, argtxt),
+                    serde_json::json!({"kind": "prim", "name": e.name, "program": c.program, "flags": c.flags, "args": argtxt}),
+                );
+            }
+            continue;
+        }
+        if class == "compile-error" || class == "not-run" || class == "server-died" {
+            bad += 1;
             eprintln!("HARNESS: {} for program:\n{}\n{}", class, c.program, detail);
             continue;
         }
@@ -568,18 +741,16 @@ pub fn run(args: &Args, out: &mut Out) {
         out.count(&format!("outcome:{}", cls));
         out.count(&format!("calls:{}", e.module));
         out.class(format!("{}:{}", e.name, cls));
-        if is_abort(class) {
-            if !aborting.contains_key(&e.name) {
-                aborting.insert(e.name.clone(), (c.program.clone(), class.clone()));
-                out.oracle_fail(
-                    &format!("abort:{}", e.name),
-                    &format!(
-                        "calling {} ({}, {}) from a script kills the host process ({}); first input: {}",
-                        e.name, e.path, e.file, class, argtxt
-                    ),
-                    serde_json::json!({"kind": "prim", "name": e.name, "program": c.program, "args": argtxt}),
-                );
-            }
+        if is_abort(class) && !aborting.contains_key(&e.name) {
+            aborting.insert(e.name.clone(), (c.program.clone(), class.clone()));
+            out.oracle_fail(
+                &format!("abort:{}", e.name),
+                &format!(
+                    "calling {} ({}, {}) from a script kills the host process ({}); first input: {}",
+                    e.name, e.path, e.file, class, argtxt
+                ),
+                serde_json::json!({"kind": "prim", "name": e.name, "program": c.program, "flags": c.flags, "args": argtxt}),
+            );
         }
         if class_modelled(&e.name) {
             let vm_flag = value_modelled(&e.name);
@@ -603,21 +774,41 @@ pub fn run(args: &Args, out: &mut Out) {
         }
     }
     out.stats.insert("aborting_primitives".into(), (aborting.len() as u64).into());
-    if compile_errors > 0 {
-        eprintln!("{} generated programs did not compile / run", compile_errors);
+    // whole programs
+    for ((name, prog), (class, detail)) in PROGRAMS.iter().zip(results[n_prim..].iter()) {
+        out.count(&format!("program-outcome:{}", if is_abort(class) { "abort" } else { class.as_str() }));
+        out.class(format!("program:{}:{}", name, class));
+        if class == "panic" {
+            let site = detail.split(':').next().unwrap_or("?").to_string();
+            out.oracle_fail(
+                &format!("panic:{}:{}", site, name),
+                &format!("evaluating the program {:?} panics inside gluon ({})", prog, detail),
+                serde_json::json!({"kind": "prim", "name": format!("program:{}", name), "program": prog, "flags": "NR"}),
+            );
+        } else if is_abort(class) || class == "not-run" {
+            out.oracle_fail(
+                &format!("abort:program:{}", name),
+                &format!("evaluating the program {:?} and holding its result kills the host process ({})", prog, class),
+                serde_json::json!({"kind": "prim", "name": format!("program:{}", name), "program": prog, "flags": "NR"}),
+            );
+        }
+    }
+    if bad > 0 {
+        eprintln!("{} generated programs did not compile / run", bad);
         std::process::exit(2);
     }
 }
 
 pub fn replay(out: &mut Out, case: &serde_json::Value) {
     let prog = case["program"].as_str().unwrap_or("").to_string();
+    let flags = case["flags"].as_str().unwrap_or("PR").to_string();
     let name = case["name"].as_str().unwrap_or("?");
-    let r = run_isolated(&[prog.clone()]);
+    let r = run_isolated(&[(flags, prog.clone())]);
     println!("replay {}:\n{}=> {} {}", name, prog, r[0].0, r[0].1);
-    if is_abort(&r[0].0) {
+    if is_abort(&r[0].0) || r[0].0 == "panic" {
         out.oracle_fail(
-            &format!("abort:{}", name),
-            &format!("calling {} from a script kills the host process ({})", name, r[0].0),
+            &format!("{}:{}", if r[0].0 == "panic" { "panic" } else { "abort" }, name),
+            &format!("{} kills / panics the host process ({} {})", name, r[0].0, r[0].1),
             case.clone(),
         );
     }
